@@ -103,6 +103,9 @@ func (vc *FuncVC) analyzeFrame(fr *frame) {
 		li.ord = i + 1
 		if fr.c != nil {
 			li.spec = fr.c.Loops[li.ord]
+			if li.spec == nil {
+				li.spec = fr.c.Loops[0]
+			}
 		}
 		for _, in := range h.Instrs {
 			if in.Pos().IsValid() {
@@ -531,6 +534,7 @@ func sortedKeysB(m map[string]bool) []string {
 func (vc *FuncVC) loopHead(li *loopInfo, s *State) {
 	name := fmt.Sprintf("loop%d", li.ord)
 	e := vc.newEnv(s, vc.entry, li.pos)
+	vc.bindRangeIndex(e, li, s)
 	if li.spec != nil {
 		for i, cl := range li.spec.Inv {
 			if !cl.active(vc.prop) {
@@ -642,6 +646,7 @@ func (vc *FuncVC) loopHead(li *loopInfo, s *State) {
 	vc.emit("(assert (= %s %s))", pc.S, s.pc.S)
 	s.pc = pc
 	e = vc.newEnv(s, vc.entry, li.pos)
+	vc.bindRangeIndex(e, li, s)
 	for _, k := range frameKeys {
 		if cur, ok := s.vars[k]; ok {
 			init := vc.get(vc.init, k, cur.Sort)
@@ -674,6 +679,16 @@ func (vc *FuncVC) loopHead(li *loopInfo, s *State) {
 				li.decSnap = &snap
 				li.autoIter = it
 			}
+		}
+	}
+}
+
+// bindRangeIndex makes "$ri" stand for the hidden index of a range-over-slice loop in its own
+// invariants: at the loop head it is the index of the last element already visited (-1 at entry).
+func (vc *FuncVC) bindRangeIndex(e *env, li *loopInfo, s *State) {
+	if ri := vc.rangeIndexAlloc(li); ri != nil {
+		if ad, ok := vc.addrs[ri]; ok {
+			e.vars["$ri"] = vc.loadAddr(s, ad)
 		}
 	}
 }
@@ -772,6 +787,7 @@ func (vc *FuncVC) frameFormula(cur, init Term) Term {
 func (vc *FuncVC) loopBack(li *loopInfo, s *State, from *ssa.BasicBlock) {
 	name := fmt.Sprintf("loop%d", li.ord)
 	e := vc.newEnv(s, vc.entry, li.pos)
+	vc.bindRangeIndex(e, li, s)
 	for _, k := range li.frameKeys {
 		if cur, ok := s.vars[k]; ok {
 			init := vc.get(vc.init, k, cur.Sort)
